@@ -62,6 +62,19 @@ def check(prog, rep, engine=None):
     diag = [s for s in stmts if m.match(s, 'np.fill_diagonal(%s, 1)' % A) or m.match(s, 'np.fill_diagonal(%s, True)' % A)]
     rep.ob('D.every-node-seeded-by-diagonal', f, diag[0] if diag else 'np.fill_diagonal(A, 1)', len(diag) == 1 and bool(binz) and cfg.dominates(binz[0], diag[0]),
            'the working copy must get a full diagonal so that isolated nodes form singleton components', line=f.node.lineno)
+    # 2b no list is structurally modified while it is being iterated (an element would be skipped)
+    bad = []
+    for lp in [x for x in stmts if isinstance(x, ast.For) and isinstance(x.iter, ast.Name)]:
+        X = lp.iter.id
+        for c in ast.walk(lp):
+            if isinstance(c, ast.Call) and isinstance(c.func, ast.Attribute) and isinstance(c.func.value, ast.Name) and c.func.value.id == X \
+                    and c.func.attr in ('remove', 'pop', 'insert', 'append', 'extend', 'clear', 'sort', 'reverse'):
+                bad.append((lp, c))
+            if isinstance(c, ast.Delete) and any(isinstance(t, ast.Subscript) and isinstance(t.value, ast.Name) and t.value.id == X for t in c.targets):
+                bad.append((lp, c))
+    rep.ob('D.no-mutation-of-iterated-list', f, bad[0][1] if bad else 'for-loops over lists in get_components', not bad,
+           'the list being iterated is modified inside the loop: the iterator skips the element after a removal, so a set that should be merged is left behind',
+           line=(bad[0][1].lineno if bad else f.node.lineno))
     # 3 edge list
     em = None
     for s in stmts:
